@@ -57,7 +57,7 @@ PROPS = {
         "note": T_TABULAR,
         "rule": TAB_RULE,
         "assumptions": [],
-        "extra_ns": [],
+        "extra_ns": ["IGVerif.Ties"],
         "design_ref": "DESIGN.md section 4 C05, section 9",
     },
     "C06": {
